@@ -66,6 +66,8 @@ pub struct Config {
 
 #[derive(Clone, Copy, Debug, PartialEq, Eq)]
 pub enum Focus {
+    /// C01: value lanes (and command lanes, which are value-like uplinks), empty bodies, slow remotes.
+    Value,
     /// C02: map lanes, key spellings, coalescing.
     Map,
     /// C03: syncs everywhere, chunked and held sync responses.
@@ -151,6 +153,14 @@ impl<'a> Gen<'a> {
             _ => self.rng.range(1, 3) as usize,
         };
         let kinds: Vec<LK> = match focus {
+            Focus::Value => {
+                let mut k = vec![LK::Value];
+                k.push(*self.rng.pick(&[LK::Value, LK::Command]));
+                if self.rng.chance(1, 3) {
+                    k.push(*self.rng.pick(&[LK::Value, LK::Map, LK::Supply]));
+                }
+                k
+            }
             Focus::Map => {
                 let mut k = vec![LK::Map];
                 if self.rng.bool() {
@@ -296,6 +306,7 @@ impl<'a> Gen<'a> {
 
     fn focus_lane(&mut self, cfg: &Config, focus: Focus) -> usize {
         let pref: &[LK] = match focus {
+            Focus::Value => &[LK::Value, LK::Command],
             Focus::Map => &[LK::Map],
             Focus::Sync => &[LK::Map, LK::Value],
             Focus::Supply => &[LK::Supply, LK::Command],
@@ -328,7 +339,7 @@ impl<'a> Gen<'a> {
         match cfg.lanes[l].kind {
             LK::Value | LK::Command => {
                 // Rarely the empty body: a legal value (Recon `Extant` prints as nothing).
-                if focus == Focus::Protocol && self.rng.chance(1, 25) {
+                if (focus == Focus::Protocol && self.rng.chance(1, 25)) || (focus == Focus::Value && self.rng.chance(1, 8)) {
                     Step::Lane(l, LaneCtl::Set(Bytes::new()))
                 } else {
                     Step::Lane(l, LaneCtl::Set(self.body(src)))
@@ -410,6 +421,7 @@ impl<'a> Gen<'a> {
         }
         // (link, sync, unlink, reader ctl, remote fault, settle, lane change, lane sync ctl, lane stall, lane fail, advance, agent return, stop)
         let w: [u64; 13] = match focus {
+            Focus::Value => [70, 80, 30, 110, 8, 30, 330, 30, 10, 0, 0, 0, 0],
             Focus::Map => [60, 70, 25, 90, 8, 30, 300, 30, 10, 0, 0, 0, 0],
             Focus::Sync => [50, 200, 40, 90, 8, 30, 220, 120, 10, 2, 0, 0, 0],
             Focus::Protocol => [130, 110, 100, 70, 40, 25, 160, 40, 15, 25, 10, 6, 6],
